@@ -15,7 +15,8 @@ from pyexpat import XMLParserType
 
 from xmlschema.aliases import IOType
 from xmlschema.exceptions import XMLSchemaTypeError, XMLSchemaValueError, \
-    XMLResourceError, XMLResourceForbidden, XMLResourceOSError
+    XMLResourceError, XMLResourceForbidden, XMLResourceOSError, \
+    XMLResourceParseError
 from xmlschema.utils.streams import DefusableReader
 
 
@@ -82,6 +83,10 @@ def defuse_xml(fp: IOType, rewind: bool = True) -> IOType:
         pass  # the purpose is to defuse not to check xml source syntax
     except OSError as err:
         raise XMLResourceOSError(err)
+    except (LookupError, ValueError) as err:
+        # An encoding declaration that the parser can't honour: the source
+        # can't be checked, so it's refused with the error of the loader.
+        raise XMLResourceParseError("invalid XML syntax: {}".format(err)) from err
 
     if rewind:
         try:
